@@ -517,6 +517,65 @@ def approx_curve(ctx, m, p, ncp, dim, centripetal, sym, table):
             ctx.check_eq('normal_eq[%d][%d]' % (a + 1, d), _total(NtN[a][b] * P[b + 1][d] for b in range(ncp - 2)), R[a][d])
 
 
+@scenario('C11', fns=['fitting.interpolate_curve', 'fitting.approximate_curve', 'fitting.interpolate_surface',
+                      'BSpline.Curve.evaluate_single', 'BSpline.Surface.evaluate_single'],
+          quick=[dict(first='interp', second='interp'), dict(first='interp', second='approx'), dict(first='approx', second='interp'),
+                 dict(first='surface', second='surface')])
+def results_are_the_callers(ctx, first, second):
+    """requires: two fits of different data sets with different degrees, one after the other, the first result kept
+       ensures : after the second fit the first result is still its own fit: requested degree, number of control points,
+                 passes through its own data points at its own parameters (interpolation) / ends on its own end points"""
+    fit = ctx.geomdl('fitting')
+
+    def run(kind, n, p, table, prefix):
+        if kind == 'surface':
+            su, sv = n
+            # a planar lattice with steps of length 3 and 4 (+ an offset): every chord length is rational
+            off = 0 if prefix == 'Q' else 7
+            Q = [[ctx.lit(F(3 * i + off)), ctx.lit(F(4 * j - off)), ctx.lit(F(off, 2))] for i in range(su) for j in range(sv)]
+            srf = fit.interpolate_surface(_copy(Q), su, sv, p[0], p[1])
+            return dict(kind=kind, obj=srf, Q=Q, n=n, p=p)
+        Q = _points(ctx, n, 2, [], table, prefix=prefix)
+        if kind == 'interp':
+            obj = fit.interpolate_curve(_copy(Q), p)
+        else:
+            obj = fit.approximate_curve(_copy(Q), p, ctrlpts_size=n - 1)
+        return dict(kind=kind, obj=obj, Q=Q, n=n, p=p)
+
+    def look(tag, r):
+        o, Q = r['obj'], r['Q']
+        if r['kind'] == 'surface':
+            su, sv = r['n']
+            ctx.check_true(tag + '.degrees', o.degree_u == r['p'][0] and o.degree_v == r['p'][1])
+            ctx.check_true(tag + '.net_size', o.ctrlpts_size_u == su and o.ctrlpts_size_v == sv)
+            uk, vl = fit.compute_params_surface(_copy(Q), su, sv)
+            for i in (0, su - 1):
+                for j in (0, sv - 1):
+                    ctx.check_eq_vec('%s.corner[%d][%d]' % (tag, i, j), o.evaluate_single([uk[i], vl[j]]), Q[j + sv * i])
+            ctx.check_eq_vec(tag + '.interior_data_point', o.evaluate_single([uk[1], vl[1]]), Q[1 + sv * 1])
+            return
+        ctx.check_true(tag + '.degree', o.degree == r['p'], 'degree %r, fitted with %d' % (o.degree, r['p']))
+        want_n = r['n'] if r['kind'] == 'interp' else r['n'] - 1
+        ctx.check_true(tag + '.ctrlpts_count', o.ctrlpts_size == want_n, '%r control points, expected %d' % (o.ctrlpts_size, want_n))
+        ctx.check_eq_vec(tag + '.C(0)=Q0', o.evaluate_single(0), Q[0])
+        ctx.check_eq_vec(tag + '.C(1)=Qm', o.evaluate_single(1), Q[-1])
+        if r['kind'] == 'interp':
+            uk = fit.compute_params_curve(_copy(Q), False)
+            for i in range(1, r['n'] - 1):
+                ctx.check_eq_vec('%s.C(uk[%d])=Q[%d]' % (tag, i, i), o.evaluate_single(uk[i]), Q[i])
+
+    if first == 'surface':
+        r1 = run('surface', (3, 4), (2, 2), None, 'Q')
+        look('first', r1)
+        r2 = run('surface', (4, 3), (1, 2), None, 'S')
+    else:
+        r1 = run(first, 5, 2, 'lattice', 'Q')
+        look('first', r1)
+        r2 = run(second, 6, 3, 'uniform', 'S')
+    look('second', r2)
+    look('first.after_second', r1)
+
+
 def _as_shapes(tier):
     out = [dict(su=5, sv=5, pu=2, pv=2, cu=4, cv=4, centripetal=False, sym=[(0, 0)], bump=[]),
            dict(su=5, sv=6, pu=2, pv=3, cu=4, cv=5, centripetal=False, sym=[(4, 0)], bump=[]),
